@@ -568,7 +568,9 @@ def judge_nodes(case, rec: Recorder | None = None) -> list[Disc]:
                 # xsi:nil spelled with surrounding whitespace (' true ', '1 '): a class of its own
                 classes.append('node:nil-padded')
                 for d in ds:
-                    d.bucket = d.bucket.replace('C20/', 'C20/nil-padded/', 1)
+                    # discrepancies that already belong to a root-cause class of the tested TYPE keep their bucket
+                    if not any(x in d.bucket for x in _TYPE_CLASS_SLOTS):
+                        d.bucket = d.bucket.replace('C20/', 'C20/nil-padded/', 1)
             elif r['nil'] == '1':
                 classes.append('node:nil-1')
             discs.extend(ds)
@@ -585,6 +587,10 @@ def union_slot(sres, exp) -> str:
     if sres['variety'] == 'union' and exp and exp[0][2].startswith('later-member/'):
         return 'union-later'
     return sres['variety']
+
+
+_TYPE_CLASS_SLOTS = ('/unprefixed-type/', '/complex-type/', '/builtin-list-type/', '/qname-derived-type/', '/pattern-type/',
+                     '/union-later/')
 
 
 def _src(r) -> str:
